@@ -75,16 +75,19 @@ type fakeAcl struct{ syncacl.SyncAcl }
 func (fakeAcl) Id() string            { return "acl" }
 func (fakeAcl) Head() *list.AclRecord { return &list.AclRecord{Id: "aclhead"} }
 
+// fakeDeletion: like the real deletion state it knows every object that is queued for deletion or
+// already deleted (deletionstate.Add puts an id there before the head storage entry becomes Queued).
 type fakeDeletion struct {
 	deletionstate.ObjectDeletionState
+	known map[string]bool
 }
 
-func (fakeDeletion) Exists(id string) bool { return false }
+func (f *fakeDeletion) Exists(id string) bool { return f.known[id] }
 
-func newManager(df, th int, hs *fakeHeads) (*headsync.DiffManager, *fakeState, rl.Diff) {
+func newManager(df, th int, hs *fakeHeads, del *fakeDeletion) (*headsync.DiffManager, *fakeState, rl.Diff) {
 	ss := &fakeState{}
 	d := rl.New(df, th)
-	dm := headsync.NewDiffManager(d, &fakeSpaceStorage{hs: hs, ss: ss}, fakeAcl{}, logger.NewNamed("verif.ldiff"), context.Background(), fakeDeletion{})
+	dm := headsync.NewDiffManager(d, &fakeSpaceStorage{hs: hs, ss: ss}, fakeAcl{}, logger.NewNamed("verif.ldiff"), context.Background(), del)
 	return dm, ss, d
 }
 
@@ -109,7 +112,8 @@ type dmCase struct {
 func runDiffManagerCase(j *judge, c dmCase) {
 	rnd := rand.New(rand.NewSource(c.Seed))
 	hs := &fakeHeads{entries: map[string]headstorage.HeadsEntry{}}
-	live, ss, _ := newManager(c.Df, c.Th, hs)
+	del := &fakeDeletion{known: map[string]bool{}}
+	live, ss, _ := newManager(c.Df, c.Th, hs, del)
 	replay := map[string]any{"kind": "diffmanager", "case": c}
 	ids := make([]string, c.N)
 	for i := range ids {
@@ -125,13 +129,37 @@ func runDiffManagerCase(j *judge, c dmCase) {
 		old, existed := hs.entries[id]
 		var kind string
 		e := headstorage.HeadsEntry{Id: id}
+		newHeads := func() []string {
+			var hs []string
+			for h, n := 0, 1+rnd.Intn(3); h < n; h++ {
+				hs = append(hs, fmt.Sprintf("%s-head-%d", id, rnd.Intn(1000)))
+			}
+			return hs
+		}
 		switch {
-		case existed && old.DeletedStatus != headstorage.DeletedStatusNotDeleted:
+		case existed && old.DeletedStatus == headstorage.DeletedStatusDeleted:
 			continue // deleted objects stay deleted
-		case existed && rnd.Intn(5) == 0:
-			kind = "delete"
+		case existed && old.DeletedStatus == headstorage.DeletedStatusQueued:
+			// the deleter has not run yet: it finishes now, or a late head update for the object arrives first
 			e = old
-			e.DeletedStatus = headstorage.DeletedStatusDeleted
+			if rnd.Intn(2) == 0 {
+				kind = "delete-finished"
+				e.DeletedStatus = headstorage.DeletedStatusDeleted
+			} else {
+				kind = "heads-change-while-queued"
+				e.Heads = newHeads()
+			}
+		case existed && rnd.Intn(5) == 0:
+			// deletion in two steps (queued by the deletion state, later deleted) or at once
+			e = old
+			del.known[id] = true
+			if rnd.Intn(3) > 0 {
+				kind = "delete-queued"
+				e.DeletedStatus = headstorage.DeletedStatusQueued
+			} else {
+				kind = "delete"
+				e.DeletedStatus = headstorage.DeletedStatusDeleted
+			}
 		default:
 			kind = "new-object"
 			if existed {
@@ -157,7 +185,7 @@ func runDiffManagerCase(j *judge, c dmCase) {
 			live.UpdateHeads(e)
 		}()
 		// restart: a new manager over the same head storage
-		fresh, fss, _ := newManager(c.Df, c.Th, hs)
+		fresh, fss, _ := newManager(c.Df, c.Th, hs, del)
 		if p := guarded(func() {
 			if err := fresh.FillDiff(ctxBg); err != nil {
 				panic("harness: FillDiff: " + err.Error())
